@@ -62,6 +62,20 @@ def check_accept_loop(f, rep, rule, b, key_prefix):
                         spawned += 1
                     else:
                         inline += 1
+    # the listener lives as long as the task: the task ends only through the stop arm - a failed accept() (EMFILE, a reset
+    # connection) is passed on like any other outcome and the loop goes on
+    nret = 0
+    for p in pathq.paths(f, b, max_visits=2):
+        if p.end != "return":
+            continue
+        nret += 1
+        feeds = arm_feeds(p)
+        fired = [feeds.get(c[1]) for (e, c, _, _) in p.conds
+                 if e[0] == "discr" and c[0] == "eq" and e[1][0] == "field" and e[1][1][0] == "downcast" and e[1][1][2] == "Ready" and
+                 pathq.mentions_call(e[1], lambda y: short(y[1]) == "poll" and "PollFn" in y[1]) is not None]
+        rep.check(bool(fired) and fired[-1] == "stop", rule, "%s|%s|ends-only-on-stop" % (key_prefix, b.path),
+                  "the accept task returns only after the stop arm fired (last select arm on this returning path: %s): an accept() error never ends the listener" % (fired[-1] if fired else None), b.loc())
+    rep.floor(rule, "%s: returning paths of the accept task" % b.path.split("::")[2], nret, 1)
     rep.check(spawned > 0 and inline == 0, rule, "%s|%s|callback-spawned" % (key_prefix, b.path),
               "the future returned by the connection callback is passed to spawn and never polled by the accept task (spawned on %d path events, awaited inline on %d)" % (spawned, inline), b.loc())
     return aw
